@@ -4,6 +4,16 @@
   Histories are arbitrary lists of public calls of the high-level handler (`Lifecycle.Call`) or of a bare
   low-level handler (`Lifecycle.CommCall`), starting from a fresh handler in front of a device in any state (idle,
   or left streaming with channels enabled by a previous session) with any static description (`Lifecycle.Desc`).
+  A `Desc` is ARBITRARY — any number of entries, any numbers, any bytes as names — and the model does with it what the
+  code does: a channel name that is not valid UTF-8 makes connect raise UnicodeDecodeError (`Lifecycle.badNameIdx`,
+  `connect_bad_name`: the handler stays switched off, nothing is left running), a name is reported up to its first
+  NUL (`ChanDesc.decoded`).  Every theorem below holds for every `Desc` unless it carries the hypothesis `DescOk`
+  (a description the client reads back unchanged: names valid UTF-8 without NUL): `state_machine_any_answers`,
+  `comm_state_machine`, `reconnect_same_description`, `reconnect_same_description_any_answers`,
+  `comm_reconnect_same_description` (their conclusion is "the reported description IS the device's"; the versions
+  for every `Desc`, reporting the decoded names, are `state_machine_any_desc` / `comm_state_machine_any_desc`),
+  `after_disconnect` (its device-side clause needs the connects of the history to succeed), `connect_ok` and
+  `connect_twice` / `comm_connect_twice` (which need the first connect to return).
   `after` is a history in which the device acknowledges every request; `afterA` / `afterC` are histories in which
   every stream start/stop, divider and enable request is answered as an `Ans` record says (acknowledged, rejected
   with a code, applied with the ACK lost, lost).  Time counts the waiting for the device (ACK waits, draining
@@ -36,6 +46,22 @@ def afterC (d0 : Device) (started : Bool) (flags : Nat) (desc : Desc) (hist : Li
     metadata length / name -/
 def description (d0 : Device) (flags : Nat) (desc : Desc) : Reported := ⟨d0.en.length, flags, desc.rxpadding, desc.chans⟩
 
+/-- a static description the client can read back unchanged: one entry per channel, every field one byte, names
+    valid UTF-8 (`Info.validUtf8`, the strict decoder's acceptance condition) without NUL -/
+def DescOk (d0 : Device) (flags : Nat) (desc : Desc) : Prop :=
+  desc.chans.length = d0.en.length ∧ flags < 256 ∧ desc.rxpadding < 256 ∧
+  ∀ c ∈ desc.chans, c.type < 256 ∧ c.vdim < 256 ∧ c.mlen < 256 ∧ Info.validUtf8 c.name = true ∧ (0 : Byte) ∉ c.name
+
+/-- in front of such a description no connect raises … -/
+theorem DescOk.noBadName {d0 : Device} {flags : Nat} {desc : Desc} (hk : DescOk d0 flags desc) :
+    badNameIdx d0.en.length desc = none :=
+  badNameIdx_none fun c hc => (hk.2.2.2 c hc).2.2.2.1
+
+/-- … and what a connect reports (names cut at the first NUL) is the description itself -/
+theorem DescOk.reported {d0 : Device} {flags : Nat} {desc : Desc} (hk : DescOk d0 flags desc) :
+    rep d0.en.length flags desc = description d0 flags desc :=
+  rep_of_nonul fun c hc => (hk.2.2.2 c hc).2.2.2.2
+
 /-! ### idempotence, both handler levels -/
 
 /-- connect on a connected handler and disconnect on a disconnected one do nothing at all (no request, no time,
@@ -48,18 +74,25 @@ theorem disconnect_idem (w : World) (a : Ans) (h : w.connected = false) : step w
 /-- the same for the low-level handler: `CommHandler.connect()` on a started handler and `disconnect()` on a stopped
     one do nothing at all — in particular a repeated connect does not re-initialise the buffered configuration -/
 theorem comm_connect_idem (w : World) (a : Ans) (h : w.commStarted = true) : commStep w .connect a = (w, .ok) := by
-  rw [commStep_connect, commConnect_started w h]
+  rw [commStep_connect, commConnectR_started w h]
 theorem comm_disconnect_idem (w : World) (a : Ans) (h : w.commStarted = false) : commStep w .disconnect a = (w, .ok) := by
   rw [commStep_disconnect, commDisconnect_stopped w h]
 
-/-- … so connecting twice is connecting once, and disconnecting twice is disconnecting once, from any state -/
-theorem comm_connect_twice (w : World) (a b : Ans) :
+/-- … so connecting twice is connecting once (when the first connect returns: a connect that raises because a
+    channel name is not UTF-8 leaves the handler stopped, and a second connect tries — and raises — again, see
+    `connect_bad_name` and the example at the end), and disconnecting twice is disconnecting once, from any state.
+    [until review finding R4-C-M4 the model had no failing connect and `comm_connect_twice` / `connect_twice` were
+    stated without the hypothesis `h`; without it they are false for a `Desc` with an undecodable name] -/
+theorem comm_connect_twice (w : World) (a b : Ans) (h : (commStep w .connect a).2 = .ok) :
     commStep (commStep w .connect a).1 .connect b = ((commStep w .connect a).1, .ok) := by
   apply comm_connect_idem
-  rw [commStep_connect]
-  cases h : w.commStarted with
-  | true => rw [commConnect_started w h]; exact h
-  | false => rw [commConnect_stopped w h]
+  rw [commStep_connect] at h ⊢
+  rcases commConnectR_cases w with e | ⟨k, -, -, e⟩
+  · rw [e]
+    cases hs : w.commStarted with
+    | true => rw [commConnect_started w hs]; exact hs
+    | false => rw [commConnect_stopped w hs]
+  · rw [e] at h; exact nomatch h
 theorem comm_disconnect_twice (w : World) (a b : Ans) :
     commStep (commStep w .disconnect a).1 .disconnect b = ((commStep w .disconnect a).1, .ok) := by
   apply comm_disconnect_idem
@@ -67,13 +100,21 @@ theorem comm_disconnect_twice (w : World) (a b : Ans) :
   cases h : w.commStarted with
   | false => rw [commDisconnect_stopped w h]; exact h
   | true => rw [commDisconnect_started w h]
-theorem connect_twice (w : World) (a b : Ans) :
+theorem connect_twice (w : World) (a b : Ans) (h : (step w .connect a).2 = .ok) :
     step (step w .connect a).1 .connect b = ((step w .connect a).1, .ok) := by
   apply connect_idem
-  rw [step_connect]
-  cases h : w.connected with
-  | true => exact h
-  | false => rfl
+  rw [step_connect] at h ⊢
+  cases hc : w.connected with
+  | true => exact hc
+  | false =>
+    rw [hc] at h
+    simp only [Bool.false_eq_true, ↓reduceIte] at h ⊢
+    generalize commConnectR w = r at *
+    obtain ⟨w1, res⟩ := r
+    cases res with
+    | ok => rfl
+    | raised e => exact nomatch (h : Res.raised e = Res.ok)
+    | ack s code => exact nomatch (h : Res.ack s code = Res.ok)
 
 /-! ### the state machine -/
 
@@ -93,22 +134,44 @@ theorem state_machine (d0 : Device) (started : Bool) (flags : Nat) (desc : Desc)
     device-side clause (the device streams exactly while the stream is started) needs the acknowledgements;
     a disconnected handler reports no description, a connected one reports the device's static description -/
 theorem state_machine_any_answers (d0 : Device) (started : Bool) (flags : Nat) (desc : Desc)
-    (hist : List (Call × Ans)) (hd : WFDev d0) :
+    (hist : List (Call × Ans)) (hd : WFDev d0) (hk : DescOk d0 flags desc) :
     let w := afterA d0 started flags desc hist
     (w.connected = false → w.recvThr = false ∧ w.streamThr = false ∧ w.intf = false ∧ w.hasDev = false ∧
         w.commStarted = false ∧ w.streamStarted = false ∧ w.reported = none) ∧
     (w.connected = true → w.recvThr = true ∧ w.intf = true ∧ w.hasDev = true ∧ w.commStarted = true ∧
         w.streamThr = w.streamStarted ∧ w.reported = some (description d0 flags desc)) :=
+  hk.reported ▸ c09_state_machine_any d0 started flags desc hist hd
+
+/-- the same for EVERY static description (any bytes as names): a connected handler reports the device's description
+    with every name cut at its first NUL (and it is connected only if every name decodes: `connect_bad_name`) -/
+theorem state_machine_any_desc (d0 : Device) (started : Bool) (flags : Nat) (desc : Desc)
+    (hist : List (Call × Ans)) (hd : WFDev d0) :
+    let w := afterA d0 started flags desc hist
+    (w.connected = false → w.recvThr = false ∧ w.streamThr = false ∧ w.intf = false ∧ w.hasDev = false ∧
+        w.commStarted = false ∧ w.streamStarted = false ∧ w.reported = none) ∧
+    (w.connected = true → w.recvThr = true ∧ w.intf = true ∧ w.hasDev = true ∧ w.commStarted = true ∧
+        w.streamThr = w.streamStarted ∧
+        w.reported = some ⟨d0.en.length, flags, desc.rxpadding, desc.chans.map ChanDesc.decoded⟩) :=
   c09_state_machine_any d0 started flags desc hist hd
 
 /-- the low-level handler alone: stopped means no receive thread, interface stopped, no description; started means
     receive thread and interface running and the device's static description reported; it never has a stream thread -/
 theorem comm_state_machine (d0 : Device) (started : Bool) (flags : Nat) (desc : Desc)
-    (hist : List (CommCall × Ans)) (hd : WFDev d0) :
+    (hist : List (CommCall × Ans)) (hd : WFDev d0) (hk : DescOk d0 flags desc) :
     let w := afterC d0 started flags desc hist
     (w.commStarted = false → w.recvThr = false ∧ w.intf = false ∧ w.hasDev = false ∧ w.reported = none) ∧
     (w.commStarted = true → w.recvThr = true ∧ w.intf = true ∧ w.hasDev = true ∧
         w.reported = some (description d0 flags desc)) ∧
+    w.streamThr = false :=
+  hk.reported ▸ c09_comm_state_machine d0 started flags desc hist hd
+
+/-- … for EVERY static description: started means the description is reported with every name cut at its first NUL -/
+theorem comm_state_machine_any_desc (d0 : Device) (started : Bool) (flags : Nat) (desc : Desc)
+    (hist : List (CommCall × Ans)) (hd : WFDev d0) :
+    let w := afterC d0 started flags desc hist
+    (w.commStarted = false → w.recvThr = false ∧ w.intf = false ∧ w.hasDev = false ∧ w.reported = none) ∧
+    (w.commStarted = true → w.recvThr = true ∧ w.intf = true ∧ w.hasDev = true ∧
+        w.reported = some ⟨d0.en.length, flags, desc.rxpadding, desc.chans.map ChanDesc.decoded⟩) ∧
     w.streamThr = false :=
   c09_comm_state_machine d0 started flags desc hist hd
 
@@ -140,38 +203,80 @@ theorem disconnected_is_inert_any_answers (d0 : Device) (started : Bool) (flags 
 /-- every reconnect reports the same static description — the device's: channel count, flags, rx padding and per
     channel type, dimension, metadata length and name — and re-reads the configuration state from the device -/
 theorem reconnect_same_description (d0 : Device) (started : Bool) (flags : Nat) (desc : Desc) (calls : List Call)
-    (hd : WFDev d0) :
+    (hd : WFDev d0) (hk : DescOk d0 flags desc) :
     let w := after d0 started flags (calls ++ [.connect]) desc
     w.dev.en.length = d0.en.length ∧ w.flags = flags ∧
     (∃ c, w.cli = some c ∧ c.n = d0.en.length ∧ c.enNow = w.dev.en ∧ c.copyEn = w.dev.en ∧
       c.divSupported = Info.divSupported flags ∧ c.ackSupported = Info.ackSupported flags) ∧
     w.reported = some (description d0 flags desc) :=
-  c09_reconnect_same_description d0 started flags desc calls hd
+  hk.reported ▸ c09_reconnect_same_description d0 started flags desc calls hd hk.noBadName
 
 /-- … whatever the device answered during the history: the static description never depends on it -/
 theorem reconnect_same_description_any_answers (d0 : Device) (started : Bool) (flags : Nat) (desc : Desc)
-    (hist : List (Call × Ans)) (a : Ans) (hd : WFDev d0) :
+    (hist : List (Call × Ans)) (a : Ans) (hd : WFDev d0) (hk : DescOk d0 flags desc) :
     let w := afterA d0 started flags desc (hist ++ [(.connect, a)])
     w.connected = true ∧ w.reported = some (description d0 flags desc) ∧ w.dev.en.length = d0.en.length ∧
     w.flags = flags ∧ w.desc = desc :=
-  c09_reconnect_same_description_any d0 started flags desc hist a hd
+  hk.reported ▸ c09_reconnect_same_description_any d0 started flags desc hist a hd hk.noBadName
 
 theorem comm_reconnect_same_description (d0 : Device) (started : Bool) (flags : Nat) (desc : Desc)
-    (hist : List (CommCall × Ans)) (a : Ans) (hd : WFDev d0) :
+    (hist : List (CommCall × Ans)) (a : Ans) (hd : WFDev d0) (hk : DescOk d0 flags desc) :
     let w := afterC d0 started flags desc (hist ++ [(.connect, a)])
     w.commStarted = true ∧ w.reported = some (description d0 flags desc) :=
-  c09_comm_reconnect_same_description d0 started flags desc hist a hd
+  hk.reported ▸ c09_comm_reconnect_same_description d0 started flags desc hist a hd hk.noBadName
+
+/-! ### connect succeeds or fails cleanly -/
+
+/-- in front of a description the client can decode, connect — after any history, whatever the device answered —
+    returns and leaves the handler connected -/
+theorem connect_ok (d0 : Device) (started : Bool) (flags : Nat) (desc : Desc) (hist : List (Call × Ans)) (a : Ans)
+    (hd : WFDev d0) (hk : DescOk d0 flags desc) :
+    let w := afterA d0 started flags desc hist
+    (step w .connect a).2 = .ok ∧ (step w .connect a).1.connected = true :=
+  c09_connect_ok d0 started flags desc hist a hd hk.noBadName
+
+theorem comm_connect_ok (d0 : Device) (started : Bool) (flags : Nat) (desc : Desc) (hist : List (CommCall × Ans))
+    (a : Ans) (hd : WFDev d0) (hk : DescOk d0 flags desc) :
+    let w := afterC d0 started flags desc hist
+    (commStep w .connect a).2 = .ok ∧ (commStep w .connect a).1.commStarted = true :=
+  c09_comm_connect_ok d0 started flags desc hist a hd hk.noBadName
+
+/-- the device's channel `k` has a name that is not valid UTF-8 (the first such channel): connect on a disconnected
+    handler — after any history — raises UnicodeDecodeError and leaves nothing running: not connected, no receive
+    thread, no stream thread, interface stopped, no description, low-level handler stopped, the buffered
+    configuration and the device's configuration untouched; it returns within the two draining waits -/
+theorem connect_bad_name (d0 : Device) (started : Bool) (flags : Nat) (desc : Desc) (hist : List (Call × Ans)) (a : Ans)
+    (k : Nat) (hd : WFDev d0) (hb : badNameIdx d0.en.length desc = some k)
+    (hdis : (afterA d0 started flags desc hist).connected = false) :
+    let w := afterA d0 started flags desc hist
+    let r := step w .connect a
+    r.2 = .raised .unicodeError ∧ r.1.connected = false ∧ r.1.recvThr = false ∧ r.1.streamThr = false ∧
+    r.1.intf = false ∧ r.1.hasDev = false ∧ r.1.reported = none ∧ r.1.commStarted = false ∧ r.1.cli = w.cli ∧
+    r.1.dev = w.dev ∧ r.1.time ≤ w.time + 16 :=
+  c09_connect_bad_name d0 started flags desc hist a k hd hb hdis
+
+/-- the same for `CommHandler.connect()` on a stopped low-level handler -/
+theorem comm_connect_bad_name (d0 : Device) (started : Bool) (flags : Nat) (desc : Desc) (hist : List (CommCall × Ans))
+    (a : Ans) (k : Nat) (hd : WFDev d0) (hb : badNameIdx d0.en.length desc = some k)
+    (hdis : (afterC d0 started flags desc hist).commStarted = false) :
+    let w := afterC d0 started flags desc hist
+    let r := commStep w .connect a
+    r.2 = .raised .unicodeError ∧ r.1.connected = false ∧ r.1.recvThr = false ∧ r.1.streamThr = false ∧
+    r.1.intf = false ∧ r.1.hasDev = false ∧ r.1.reported = none ∧ r.1.commStarted = false ∧ r.1.cli = w.cli ∧
+    r.1.dev = w.dev ∧ r.1.time ≤ w.time + 16 :=
+  c09_comm_connect_bad_name d0 started flags desc hist a k hd hb hdis
 
 /-! ### after disconnect -/
 
 /-- after disconnect: no description is reported, no library thread is left, the interface is
     stopped; and if the handler was ever connected the device has been told to stop streaming and
     to disable every channel (its state says so) -/
-theorem after_disconnect (d0 : Device) (started : Bool) (flags : Nat) (desc : Desc) (calls : List Call) (hd : WFDev d0) :
+theorem after_disconnect (d0 : Device) (started : Bool) (flags : Nat) (desc : Desc) (calls : List Call) (hd : WFDev d0)
+    (hk : DescOk d0 flags desc) :
     let w := after d0 started flags (calls ++ [.disconnect]) desc
     w.connected = false ∧ w.hasDev = false ∧ w.recvThr = false ∧ w.streamThr = false ∧ w.intf = false ∧
     (Call.connect ∈ calls → w.devStarted = false ∧ ∀ b ∈ w.dev.en, b = false) ∧ w.reported = none :=
-  c09_after_disconnect d0 started flags desc calls hd
+  c09_after_disconnect d0 started flags desc calls hd hk.noBadName
 
 /-- whatever the device answers — also when it rejects or ignores the stop and disable requests — disconnect
     completes and leaves the handler switched off: no description, no thread, interface stopped -/
@@ -225,6 +330,49 @@ example :
     (afterA ⟨[false, true, false], [0, 5, 0]⟩ true 3 desc
       [(.connect, {}), (.streamStart, {}), (.disconnect, ⟨.nack 5, .ack, .lost⟩), (.connect, {})]).reported
       = some ⟨3, 3, 8, desc.chans⟩ := by decide +kernel
+
+/-- that description is one the client reads back unchanged (`DescOk`): one byte per field, names valid UTF-8 (one of
+    them not ASCII: "é") without NUL -/
+example : DescOk ⟨[false, true, false], [0, 5, 0]⟩ 3
+    ⟨[⟨10, 1, 0, [0x61]⟩, ⟨0x85, 3, 2, []⟩, ⟨18, 4, 1, [0xc3, 0xa9]⟩], 8⟩ := by
+  refine ⟨rfl, by decide, by decide, ?_⟩
+  intro c hc
+  simp only [List.mem_cons, List.not_mem_nil, or_false] at hc
+  rcases hc with rfl | rfl | rfl <;> decide
+
+/-- a channel name that is not UTF-8 (review finding R4-C-M4): connect raises UnicodeDecodeError, the handler stays
+    disconnected (the following disconnect is a no-op) … -/
+example : (runA (World.fresh ⟨[false, true], [0, 0]⟩ false 3
+      ⟨[⟨10, 1, 0, [0xff, 0xfe, 0x61, 0x62]⟩, ⟨10, 1, 0, [0x6f, 0x6b]⟩], 0⟩)
+    [(.connect, {}), (.disconnect, {})]).2 = [.raised .unicodeError, .ok] := by decide +kernel
+
+/-- … it is channel 0 whose name does not decode (hypothesis of `connect_bad_name`) … -/
+example : badNameIdx 2 ⟨[⟨10, 1, 0, [0xff, 0xfe, 0x61, 0x62]⟩, ⟨10, 1, 0, [0x6f, 0x6b]⟩], 0⟩ = some 0 := by
+  decide +kernel
+
+/-- … nothing is left running, and a second connect raises again (why `connect_twice` assumes that the first connect
+    returned); the stop request was sent all the same: the stream somebody left running is stopped -/
+example :
+    let desc : Desc := ⟨[⟨10, 1, 0, [0xff, 0xfe, 0x61, 0x62]⟩, ⟨10, 1, 0, [0x6f, 0x6b]⟩], 0⟩
+    let r := runA (World.fresh ⟨[false, true], [0, 0]⟩ true 3 desc) [(.connect, {}), (.connect, {})]
+    r.2 = [.raised .unicodeError, .raised .unicodeError] ∧ r.1.connected = false ∧ r.1.recvThr = false ∧
+    r.1.intf = false ∧ r.1.hasDev = false ∧ r.1.reported = none ∧ r.1.devStarted = false ∧
+    r.1.dev = ⟨[false, true], [0, 0]⟩ := by decide +kernel
+
+/-- the same on a bare low-level handler -/
+example : (commRun (World.fresh ⟨[false, true], [0, 0]⟩ false 3
+      ⟨[⟨10, 1, 0, [0x6f, 0x6b]⟩, ⟨10, 1, 0, [0xc3]⟩], 0⟩)
+    [(.connect, {}), (.channelsWrite, {}), (.disconnect, {})]).2
+      = [.raised .unicodeError, .raised .assertion, .ok] := by decide +kernel
+
+/-- a name with a NUL is reported up to the NUL (valid UTF-8, so connect succeeds; such a description is not
+    `DescOk`: what is reported differs from the device's name field) -/
+example : (afterA ⟨[false], [0]⟩ false 3 ⟨[⟨10, 1, 0, [0x61, 0x00, 0x62]⟩], 0⟩ [(.connect, {})]).reported
+      = some ⟨1, 3, 0, [⟨10, 1, 0, [0x61]⟩]⟩ := by decide +kernel
+
+/-- bad bytes after the NUL make connect raise as well (the whole field is decoded before it is cut) -/
+example : (runA (World.fresh ⟨[false], [0]⟩ false 3 ⟨[⟨10, 1, 0, [0x61, 0x00, 0xff]⟩], 0⟩) [(.connect, {})]).2
+      = [.raised .unicodeError] := by decide +kernel
 
 /-- the low-level handler: a repeated connect keeps the buffered request, which the write then delivers -/
 example : (afterC ⟨[false, false], [0, 0]⟩ false 3 (Desc.plain 2)
